@@ -139,6 +139,8 @@ structure WkInv (c : Ctl.State (Load.State τ) τ) (k : Nat) (w : Wk τ) : Prop 
   noticeDown : w.posted.any isNotice = true → (c.env.flags.get k).down = true
   inactive : k ∉ c.active → w.posted = []
   inactiveDown : k ∉ c.active → (c.env.flags.get k).down = true
+  noticeLast : w.posted.dropLast.any isNotice = false
+  bootNoReady : w.phase = .boot → (flight k w).any isReady = false
   -- every shutdown signal reaches the queue of a live worker
   shut : w.alive = true → (c.env.flags.get k).sent = true → shutSeen w = true
   -- registration and collection
@@ -172,6 +174,8 @@ instance instWkInvDec (c : Ctl.State (Load.State τ) τ) (k : Nat) (w : Wk τ) :
      (w.posted.any isNotice = true → (c.env.flags.get k).down = true) ∧
      (k ∉ c.active → w.posted.isEmpty = true) ∧
      (k ∉ c.active → (c.env.flags.get k).down = true) ∧
+     (w.posted.dropLast.any isNotice = false) ∧
+     (w.phase = .boot → (flight k w).any isReady = false) ∧
      (w.alive = true → (c.env.flags.get k).sent = true → shutSeen w = true) ∧
      (k ∈ c.active → c.env.flags.shuttingDown k = false → w.phase ≠ .boot →
         (flight k w).any isReady = false → k ∈ AList.keys c.sched.node2pending) ∧
@@ -182,8 +186,8 @@ instance instWkInvDec (c : Ctl.State (Load.State τ) τ) (k : Nat) (w : Wk τ) :
      (w.alive = true → (c.env.flags.get k).down = false → SyncD c.sched k w))
     (by
       constructor
-      · rintro ⟨h1, h2, h3, h4, h5, h6, h7, h8, h9, h9', h10, h11, h12, h13, h14, h14', h15, h16, h17, h18, h19, h20, h21⟩
-        refine ⟨h1, h2, ?_, h4, h5, ?_, fun _ => trivial, h7, h8, h9, h9', h10, h11, h12, h13, ?_, h14', h15, h16, h17, h18, h19, h20, h21⟩
+      · rintro ⟨h1, h2, h3, h4, h5, h6, h7, h8, h9, h9', h10, h11, h12, h13, h14, h14', ha, hb, h15, h16, h17, h18, h19, h20, h21⟩
+        refine ⟨h1, h2, ?_, h4, h5, ?_, fun _ => trivial, h7, h8, h9, h9', h10, h11, h12, h13, ?_, h14', ha, hb, h15, h16, h17, h18, h19, h20, h21⟩
         · intro hp
           have := h3 hp
           unfold nextIsTest at this
@@ -196,7 +200,7 @@ instance instWkInvDec (c : Ctl.State (Load.State τ) τ) (k : Nat) (w : Wk τ) :
         · intro hk; exact List.isEmpty_iff.1 (h14 hk)
       · intro h
         refine ⟨h.loopCb, h.running, ?_, h.init0, h.early, ?_, h.inboxK, h.ownP, h.ownO, h.evPlain, h.notBroken, h.notice1, h.notice2,
-          h.noticeDown, ?_, h.inactiveDown, h.shut, h.ready, h.readyTail, h.readyColl, h.qn, h.keysActive, h.sync⟩
+          h.noticeDown, ?_, h.inactiveDown, h.noticeLast, h.bootNoReady, h.shut, h.ready, h.readyTail, h.readyColl, h.qn, h.keysActive, h.sync⟩
         · intro hp
           obtain ⟨j, hj⟩ := h.have1 hp
           unfold nextIsTest; rw [hj]
